@@ -195,4 +195,123 @@ Section Bridge.
     intro H. destruct (enum_in _ _ _ y H) as [Hlt Hn]. rewrite lf_fresh_opm. fixR.
     rewrite (nth_map_lt (fun x => opm (fst x)) (funcs inp) f y []) by exact Hlt. now rewrite Hn.
   Qed.
+
+  (* ============================================================================================== *)
+  (* Part C: np.hstack, the no-regularization index list, the diagonal term, the mirror                *)
+  Lemma map_nth_seq {A} (l : list A) d : map (fun i => nth i l d) (seq 0 (length l)) = l.
+  Proof.
+    apply (nth_ext _ _ d d); [now rewrite map_length, seq_length|]. intros i Hi. rewrite map_length, seq_length in Hi.
+    now rewrite (nth_map_seq (fun i => nth i l d)) by exact Hi.
+  Qed.
+  Lemma hstack_rows n (t : list Rmat) : (forall B, In B t -> length B = n) -> forall acc : Rmat, length acc = n ->
+    fold_left (fun a B => map2 (@app R) a B) t acc = map (fun i => nth i acc [] ++ concat (map (fun B : Rmat => nth i B []) t)) (seq 0 n).
+  Proof.
+    induction t as [|B t IH]; intros Ht acc Ha; simpl.
+    - rewrite <- Ha. rewrite <- (map_nth_seq acc []) at 1. apply map_ext. intro i. now rewrite app_nil_r.
+    - assert (HB : length B = n) by (apply Ht; now left).
+      assert (Hl2 : length (map2 (@app R) acc B) = n) by (rewrite map2_length; congruence).
+      rewrite (IH (fun B' HB' => Ht B' (or_intror HB')) _ Hl2).
+      apply map_ext_in. intros i Hi. apply in_seq in Hi.
+      rewrite (nth_map2 (@app R) [] [] []) by (try congruence; lia). now rewrite <- app_assoc.
+  Qed.
+  Lemma map_fst_filter_combine {A B} (f : A -> bool) (l : list A) : forall (r : list B), length r = length l ->
+    map fst (filter (fun x => f (fst x)) (combine l r)) = filter f l.
+  Proof.
+    induction l as [|a l IH]; intros [|b r] H; simpl in *; try discriminate; [reflexivity|].
+    destruct (f a); simpl; rewrite IH by lia; reflexivity.
+  Qed.
+  Definition fl (l : list (lobj R)) : list (lobj R) := filter (fun o => negb (lo_mapper o)) l.
+  Lemma lf_fresh_fl : lf_fresh KR inp = map opm (fl (objs inp)).
+  Proof.
+    rewrite lf_fresh_opm. unfold funcs, orng, fl.
+    rewrite <- (map_fst_filter_combine (fun o => negb (lo_mapper o)) (objs inp) (C15.ranges_from 0 (objs inp)))
+      by (now rewrite ranges_from_length).
+    now rewrite map_map.
+  Qed.
+  Lemma omm_list_gen (lf : list Rmat) : forall l pre, lf = pre ++ map opm (fl l) ->
+    (forall o, In o l -> lo_mapper o = true -> lo_ovr o = None) ->
+    map2 (fun (o : lobj R) k => match lo_ovr o with None => conv_mm KR (lo_mm o) | Some _ => nth k lf [] end) l (func_index_from (length pre) l)
+    = map opm l.
+  Proof.
+    induction l as [|o l IH]; intros pre Hlf Hm; [reflexivity|]. cbn [func_index_from map2 map]. f_equal.
+    - unfold C15k.opm. destruct (lo_ovr o) as [B|] eqn:Eo; [|reflexivity].
+      assert (Ef : lo_mapper o = false).
+      { destruct (lo_mapper o) eqn:E; [|reflexivity]. rewrite (Hm o (or_introl eq_refl) E) in Eo. discriminate. }
+      rewrite Hlf. unfold fl. cbn [filter]. rewrite Ef. cbn [negb map]. rewrite nth_app_len. unfold C15k.opm. now rewrite Eo.
+    - destruct (lo_mapper o) eqn:E.
+      + apply IH; [|intros o' Ho'; apply Hm; now right]. rewrite Hlf. unfold fl. cbn [filter]. now rewrite E.
+      + replace (S (length pre)) with (length (pre ++ [opm o])) by (rewrite app_length; simpl; lia).
+        apply IH; [|intros o' Ho'; apply Hm; now right]. rewrite Hlf. unfold fl. cbn [filter]. rewrite E. cbn [negb map].
+        now rewrite <- app_assoc.
+  Qed.
+  Lemma omm_list_all : omm_list_of KR inp (lf_fresh KR inp) = map opm (objs inp).
+  Proof.
+    unfold omm_list_of. apply (omm_list_gen (lf_fresh KR inp) (objs inp) []); [apply lf_fresh_fl|].
+    intros o Ho Hm. pose proof (obj_wf o Ho) as W. rewrite Hm in W. now destruct W as (_ & Hov & _).
+  Qed.
+  Hypothesis Hne : objs inp <> [].
+  Lemma np_pos : (0 < np)%nat.
+  Proof. now destruct WF. Qed.
+  Lemma hstack_bridge (l : list (lobj R)) : l <> [] -> (forall o, In o l -> length (opm o) = np) ->
+    (forall o, In o l -> opmat c (to04 o) = opm o) ->
+    C15.hstack (map opm l) = map (fun i => concat (map (fun M : Rmat => nth i M []) (map (opmat c) (map to04 l)))) (seq 0 np).
+  Proof.
+    intros Hn Hl Hop. destruct l as [|o0 t]; [now elim Hn|]. cbn [map C15.hstack].
+    rewrite (hstack_rows np (map opm t)).
+    - apply map_ext_in. intros i Hi. cbn [concat map]. rewrite (Hop o0) by (now left). f_equal.
+      f_equal. rewrite !map_map. apply map_ext_in. intros o Ho. now rewrite (Hop o) by (now right).
+    - intros B HB. apply in_map_iff in HB. destruct HB as [o [<- Ho]]. apply Hl. now right.
+    - apply Hl. now left.
+  Qed.
+  Theorem p_omm_is_op_matrix : p_omm KR inp = @op_matrix ROps c objs4 np.
+  Proof.
+    unfold p_omm. rewrite omm_list_all. unfold op_matrix, C04.hstack, objs4. apply hstack_bridge; [exact Hne| |apply opmat_to04].
+    intros o Ho. destruct (opm_shape o Ho) as [[L _] _]. fixR. exact L.
+  Qed.
+  Lemma p_omm_shape : shape np (total inp) (p_omm KR inp).
+  Proof.
+    rewrite p_omm_is_op_matrix, <- tp04. apply shape_op_matrix. intros o Ho. now destruct (wf04 o Ho) as (_ & H & _).
+  Qed.
+
+  Theorem noreg_same : noreg_idx inp = @noreg_index_list ROps objs4.
+  Proof.
+    unfold noreg_idx, noreg_index_list. rewrite all04. rewrite !flat_map_concat_map, map_map. f_equal.
+    apply map_ext. intros [o [lo hi]]. unfold T2. cbn [fst snd]. rewrite has_reg_to04. destruct (lo_reg o); reflexivity.
+  Qed.
+
+  (* two square matrices that agree entry-wise, with their shapes *)
+  Definition Rel (N : nat) (A B : Rmat) : Prop := shape N N A /\ shape N N B /\ eqN N A B.
+  Lemma add_diag_step N (A B : Rmat) eps k : Rel N A B -> (k < N)%nat ->
+    Rel N (imap (fun i (row : Rvec) => if Nat.eqb i k then imap (fun j x => if Nat.eqb j k then x + eps else x) 0 row else row) 0 A)
+          (@mat_add ROps B k k eps).
+  Proof.
+    intros (HA & HB & He) Hk. split; [|split; [now apply shape_mat_add|]].
+    - destruct HA as [A1 A2]. split; [|intros a Ha]; fixR; [now rewrite imap_length|].
+      rewrite (nth_imap _ []) by lia. cbn [plus]. destruct (Nat.eqb a k); [rewrite imap_length|]; now apply A2.
+    - intros a b Ha Hb. rewrite (mget_mat_add N N) by assumption. rewrite <- (He a b Ha Hb).
+      destruct HA as [A1 A2]. rewrite !mget_R. fixR. rewrite (nth_imap _ []) by lia. cbn [plus].
+      rewrite (Nat.eqb_sym k a). destruct (Nat.eqb a k); cbn [andb]; [|lra].
+      rewrite (nth_imap _ 0) by (rewrite A2; lia). cbn [plus]. rewrite (Nat.eqb_sym k b). destruct (Nat.eqb b k); lra.
+  Qed.
+  Lemma add_diag_rel N eps idx : Forall (fun k => (k < N)%nat) idx -> forall A B, Rel N A B ->
+    Rel N (add_diag KR eps idx A) (@add_to_diag ROps B eps idx).
+  Proof.
+    unfold add_diag, add_to_diag. induction idx as [|k idx IH]; intros Hf A B HR; [exact HR|].
+    inversion Hf as [|? ? Hk Hf']; subst. cbn [fold_left]. apply IH; [exact Hf'|]. now apply add_diag_step.
+  Qed.
+  Lemma mirror_rel N (A B : Rmat) : Rel N A B -> Rel N (mirror KR A) (@mirrored ROps B).
+  Proof.
+    intros (HA & HB & He). split; [|split; [now apply shape_mirrored|]].
+    - destruct HA as [A1 A2]. split; [|intros a Ha]; fixR; unfold mirror; [now rewrite imap_length|].
+      rewrite (nth_imap _ []) by lia. rewrite imap_length. now apply A2.
+    - intros a b Ha Hb. rewrite (mirrored_spec N) by assumption. unfold mir.
+      destruct HA as [A1 A2]. rewrite mget_R. fixR. unfold mirror. rewrite (nth_imap _ []) by lia. cbn [plus].
+      rewrite (nth_imap _ 0) by (rewrite A2; lia). cbn [plus].
+      assert (Hlo : (Nat.min a b < N)%nat) by lia. assert (Hhi : (Nat.max a b < N)%nat) by lia.
+      pose proof (He _ _ Hlo Hhi) as E1. pose proof (He _ _ Hhi Hlo) as E2. rewrite <- E1, <- E2. rewrite !mget_R.
+      cbn [KR c04k tnz t0]. unfold C15.mget. cbn [KR c04k t0]. unfold zero. ropen. change (IZR 0) with 0. fixR.
+      destruct (Reqb (nth (Nat.max a b) (nth (Nat.min a b) A []) 0) 0) eqn:X; cbn [negb]; [|reflexivity].
+      destruct (Reqb (nth (Nat.min a b) (nth (Nat.max a b) A []) 0) 0) eqn:Y; cbn [negb]; [|reflexivity].
+      apply Reqb_true in Y. now rewrite Y.
+  Qed.
 End Bridge.
